@@ -8,6 +8,8 @@ semantics (harness/pyx_translit.py).  Three streams:
   M  the Lean C-semantics model against the transliteration of the current .pyx;
   D  decoders layered on `common`, run with the transliterated module swapped in.
 """
+import os
+import re
 import importlib
 import importlib.util
 import os
@@ -169,8 +171,23 @@ def cases(ctx):
         msb = rng.randrange(1, 50)
         lsb = rng.randrange(msb, 57)
         yield from three("wrongstatus", [d, sb, msb, lsb], "wrongstatus")
-    for a in [0, 0x200000, 0x200001, 0x27FFFE, 0x27FFFF, 0x280001, 0x4840D6, 0x500001, 0x6F0000, 0x6EFFFF, 0xF00001, 0xFFFFFF] + [rng.getrandbits(24) for _ in range(200)]:
-        yield from three("is_icao_assigned", ["%06X" % a], "is_icao_assigned")
+    # address-block boundaries: every integer literal that occurs in either implementation's source (so a bound that is moved
+    # in one of them is probed where it now lies) +-2, the documented block edges, and random addresses
+    edges = set([0, 0xFFFFFF, 0x4840D6])
+    for blk in (0x200000, 0x27FFFF, 0x280000, 0x28FFFF, 0x500000, 0x5FFFFF, 0x600000, 0x67FFFF, 0x680000, 0x6F0000, 0x900000, 0x9FFFFF,
+                0xB00000, 0xBFFFFF, 0xD00000, 0xDFFFFF, 0xF00000, 0xFFFFFF):
+        edges.add(blk)
+    for path in (os.path.join(core.REPO, "src", "pyModeS", "py_common.py"), os.path.join(core.REPO, "src", "pyModeS", "c_common.pyx")):
+        try:
+            for tok in re.findall(r"\b0[xX][0-9a-fA-F]+\b|\b\d{6,8}\b", open(path).read()):
+                v = int(tok, 16) if tok[:2].lower() == "0x" else int(tok, 10)
+                if 0x10000 <= v <= 0xFFFFFF:
+                    edges.add(v)
+        except OSError:
+            pass
+    addrs = sorted({e + d for e in edges for d in (-2, -1, 0, 1, 2) if 0 <= e + d <= 0xFFFFFF})
+    for a in addrs + [rng.getrandbits(24) for _ in range(ctx.n(1000, 20000))]:
+        yield from three("is_icao_assigned", [rng.choice(["%06X", "%06x"]) % a], "is_icao_assigned")
     # floats: cprNL and floor
     import math
     from nl_table import NL_TABLE
